@@ -309,3 +309,50 @@ Fixpoint run (c : cfg) (p : parser) (bs : list N) : option (parser * list event)
 
 Definition events_model (bs : list N) : option (list event) :=
   '(_, e) <- run cfg_default parser_new bs ;; Some e.
+
+(* ---- adapters of the function translator (tools/gen_fn_parser.py); definitions only ------ *)
+
+(* struct ParamsIter<'a> { params: &'a Params, index: usize } *)
+Record params_it : Set := mkPIt { pit_params : params; pit_index : N }.
+Definition set_pit_params (it : params_it) (q : params) : params_it := mkPIt q (pit_index it).
+Definition set_pit_index (it : params_it) (i : N) : params_it := mkPIt (pit_params it) i.
+
+(* struct Utf8Parser { utf8_parser: utf8::Parser } == the decoder itself; the unit struct AsciiParser is
+   represented in the same type (the field Parser.utf8_parser has ONE Coq type for both builds; its value is
+   never read when utf8 is off) by the fresh decoder *)
+Definition pu_inner (u : u8parser) : u8parser := u.
+Definition set_pu_inner (u v : u8parser) : u8parser := v.
+Definition ascii_parser_unit : u8parser := u8_new.
+(* struct VtUtf8Receiver<'a>(&'a mut Option<char>) == the slot it borrows *)
+Definition prcv_slot (o : option N) : option N := o.
+Definition set_prcv_slot (o v : option N) : option N := v.
+
+(* Result<T, u8> of the two TryFrom impls, as a sum *)
+Definition opt_ok_or {A E} (o : option A) (e : E) : A + E := match o with Some x => inl x | None => inr e end.
+
+(* core::fmt::Formatter over an infallible sink = the text written so far (as in Model/Style.v);
+   <u16 as Debug/Display>::fmt without flags: decimal, no leading zeros (five digits suffice) *)
+Definition pfmt_write_str (f s : list N) : list N := f ++ s.
+Fixpoint pfmt_dec (fuel : nat) (n : N) (acc : list N) : list N :=
+  match fuel with
+  | O => acc
+  | S k => if n <? 10 then (48 + n) :: acc else pfmt_dec k (n / 10) ((48 + n mod 10) :: acc)
+  end.
+Definition pfmt_u16 (f : list N) (v : N) : list N := f ++ pfmt_dec 5 v [].
+Fixpoint penumerate_from {A} (i : N) (l : list A) : list (N * A) :=
+  match l with [] => [] | x :: t => (i, x) :: penumerate_from (i + 1) t end.
+Definition penumerate {A} (l : list A) : list (N * A) := penumerate_from 0 l.
+
+(* MaybeUninit<T>, value level: [None] = uninitialised.  An array of MaybeUninit needs no initialisation
+   (`MaybeUninit::uninit().assume_init()` at type [MaybeUninit<T>; n] is sound); reading a slot as
+   initialised (`assume_init`, or the pointer cast `*const [MaybeUninit<T>] as *const [T]`) is undefined
+   behaviour when it is not: [None] (= "would panic") stands for that too *)
+Definition mu_uninit_array {A} (n : N) : list (option A) := repeat None (N.to_nat n).
+Fixpoint mu_assume_init_slice {A} (l : list (option A)) : option (list A) :=
+  match l with
+  | [] => Some []
+  | Some x :: t => match mu_assume_init_slice t with Some r => Some (x :: r) | None => None end
+  | None :: _ => None
+  end.
+(* slices.iter_mut().enumerate().take(n): the first min(n, len) slots with their indices *)
+Definition mu_take_enum {A} (l : list A) (n : N) : list (N * A) := firstn (N.to_nat n) (penumerate l).
